@@ -61,6 +61,9 @@ type CrashCase struct {
 	CrashAt  int    `json:"crash_at"`
 	Torn     int    `json:"torn"`
 	Crash2At int    `json:"crash2_at,omitempty"` // second crash during the restart
+	// Handled: the interruption is a handled termination signal arriving
+	// before effect CrashAt instead of a kill at it.
+	Handled bool `json:"handled,omitempty"`
 	Effect   string `json:"effect,omitempty"`
 }
 
@@ -80,7 +83,11 @@ func evalCrash(c CrashCase, ref *progen.RefResult, p *progen.Program) crashOutco
 		return out
 	}
 	defer os.RemoveAll(dir)
-	inc1 := Run(p, c.Shape.Schedule, Options{PsDir: dir, CrashAt: c.CrashAt, Torn: c.Torn, MrpPid: 4242, PermSite: nil})
+	o1 := Options{PsDir: dir, CrashAt: c.CrashAt, Torn: c.Torn, MrpPid: 4242, PermSite: nil}
+	if c.Handled {
+		o1 = Options{PsDir: dir, SignalAt: c.CrashAt, MrpPid: 4242}
+	}
+	inc1 := Run(p, c.Shape.Schedule, o1)
 	out.inc1 = inc1
 	if !inc1.Crashed {
 		out.note = "no-crash" // the run has fewer effects than crash_at
@@ -95,8 +102,16 @@ func evalCrash(c CrashCase, ref *progen.RefResult, p *progen.Program) crashOutco
 			recorded[j.Key] = true
 		}
 	}
-	// the operator removes the stale lock, as documented
-	os.Remove(filepath.Join(dir, "ps", "_lock"))
+	if c.Handled {
+		// a handled signal must leave the pipestance unlocked by itself
+		if _, err := os.Lstat(filepath.Join(dir, "ps", "_lock")); err == nil {
+			out.viol = append(out.viol, "a handled termination signal left the pipestance locked (_lock still present)")
+			os.Remove(filepath.Join(dir, "ps", "_lock"))
+		}
+	} else {
+		// the operator removes the stale lock, as documented
+		os.Remove(filepath.Join(dir, "ps", "_lock"))
+	}
 	pid := 4343
 	var inc2 *Result
 	if c.Crash2At > 0 {
@@ -219,12 +234,13 @@ func CrashCheck() {
 		r.Rule = "for each pipeline shape (linear chain, consumer sorting before its producer, split stage, run-time forks, run-time disabled branch, mapped call in a sub-pipeline; thorough: 6 more) " +
 			"the uninterrupted run on the real runtime yields a numbered history of N file-system effects of mrp and of the jobs; for EVERY n in 1..N the run is repeated and the process dies at effect n " +
 			"(the effect and everything after it suppressed; for plain file writes also the torn variants 'empty file' and 'first half'), the stale _lock is removed, and a new incarnation re-attaches " +
-			"through ReattachToPipestance+Reset+RestartLocalJobs+LoadMetadata and runs to the end; thorough adds a second crash at every effect of the restart for two shapes. " +
+			"through ReattachToPipestance+Reset+RestartLocalJobs+LoadMetadata and runs to the end; for EVERY n also the handled-signal variant: a termination signal arrives before effect n, the process keeps running while a critical section is open (util.EnterCriticalSection), then the registered handlers run (Pipestance.HandleSignal) and the process is dead; the lock must be gone WITHOUT operator help and the restart must succeed the same way; thorough adds a second crash at every effect of the restart for two shapes. " +
 			"distinct = distinct (shape, crash point, torn variant); non-trivial = the first incarnation actually died at that effect"
 		r.Set("shapes", len(shapes))
 		r.RunWorkers(0)
 		r.Assume("crash granularity is the file-system call; no fsync/disk-block modelling; in-flight local jobs die with mrp (pdeathsig) and their recorded pid is dead")
-		r.Assume("the operator removes the stale _lock after a kill, as documented")
+		r.Assume("the operator removes the stale _lock after a kill, as documented (not after a handled signal)")
+		r.Assume("handled signals are delivered between file-system effects; the handler goroutine of util.SetupSignalHandlers is executed synchronously by the harness (same critical-section lock, same registered handlers), os.Exit is the simulated death")
 		r.Assume("jobs follow the mrjob/adapter protocol (model job)")
 		r.Finish()
 	}
@@ -263,6 +279,7 @@ func CrashCheck() {
 		infos[si] = &shapeInfo{p: p, ref: ref, n: base.Effects, log: base.EffectLog}
 		for n := 1; n <= base.Effects; n++ {
 			items = append(items, item{si, CrashCase{Shape: sh, CrashAt: n}})
+			items = append(items, item{si, CrashCase{Shape: sh, CrashAt: n, Handled: true}})
 			if n-1 < len(base.EffectLog) && strings.HasPrefix(base.EffectLog[n-1], "write ") &&
 				!strings.Contains(base.EffectLog[n-1], "journal") {
 				items = append(items, item{si, CrashCase{Shape: sh, CrashAt: n, Torn: 1}})
@@ -288,7 +305,7 @@ func CrashCheck() {
 		it := items[idx]
 		info := infos[it.shape]
 		o := evalCrash(it.c, info.ref, info.p)
-		key := fmt.Sprintf("%s|%d|%d", it.c.Shape.Name(), it.c.CrashAt, it.c.Torn)
+		key := fmt.Sprintf("%s|%d|%d|%v", it.c.Shape.Name(), it.c.CrashAt, it.c.Torn, it.c.Handled)
 		if o.note == "no-crash" {
 			r.Eval("")
 			r.Outcome("no-crash")
@@ -299,6 +316,10 @@ func CrashCheck() {
 			rer := 0
 			if o.inc2 != nil {
 				rer = len(o.inc2.Jobs)
+			}
+			if it.c.Handled {
+				r.Outcome(fmt.Sprintf("signal-resumed-ok:delayed-by-critical-section=%v", o.inc1.SignalDelay > 0))
+				r.Add("handled_signal_points", 1)
 			}
 			r.Outcome(fmt.Sprintf("resumed-ok:rerun-jobs=%d", rer))
 			if wi%211 == 0 {
@@ -318,11 +339,11 @@ func CrashCheck() {
 			c.Shape.Program = info.p.MRO()
 			for _, v := range o.viol {
 				r.Report(ev.Finding{Sig: crashSig(v, o.effect),
-					What: fmt.Sprintf("%s, died at effect %d (%s, torn=%d): %s", it.c.Shape.Name(), it.c.CrashAt, o.effect, it.c.Torn, v), Case: c})
+					What: fmt.Sprintf("%s, %s effect %d (%s, torn=%d): %s", it.c.Shape.Name(), map[bool]string{false: "died at", true: "handled signal before"}[it.c.Handled], it.c.CrashAt, o.effect, it.c.Torn, v), Case: c})
 			}
 		}
 		// second-order crashes (thorough, first two shapes, untorn)
-		if r.Thorough() && it.shape < 2 && it.c.Torn == 0 && len(o.viol) == 0 && o.inc2 != nil {
+		if r.Thorough() && it.shape < 2 && it.c.Torn == 0 && !it.c.Handled && len(o.viol) == 0 && o.inc2 != nil {
 			n2 := o.inc2.Effects
 			for m := 1; m <= n2 && m <= 60; m++ {
 				if r.Expired("second-order crash enumeration") {
